@@ -112,6 +112,33 @@ def op_insert(sec, i):
             "rec": {"bad": rec is None, "r": rec if rec is not None else struct_rec([], 0, 0)}}
 
 
+CLASSES = {"IN": 1, "CH": 3, "HS": 4, "NONE": 254, "ANY": 255}
+TYPES = {"A": 1, "TXT": 16, "OPT": 41}
+
+
+def raw_menu():
+    """records built field by field with RR::new (presentation owner, type, class, ttl, data): the OPT
+    pseudo-record among them (class = advertised payload, ttl = extended rcode / version / flags)"""
+    return [
+        (".", "OPT", "ANY", 0x01008000, [0, 10, 0, 2, 7, 7]),       # one option, DO set, extended rcode 1
+        (".", "OPT", "HS", 0x00010000, []),                          # no option, version 1
+        (".", "OPT", "ANY", 0, [0, 3, 0, 0, 0, 8, 0, 1, 9]),         # two options
+        (".", "OPT", "ANY", 0, [0, 10, 0, 9, 1]),                    # option length overruns the data
+        (".", "OPT", "ANY", 0, [0, 10, 0]),                          # truncated option header
+        ("x.", "OPT", "ANY", 0, []),                                 # OPT not owned by the root
+        ("r.a.", "A", "CH", 7, [4, 3, 2, 1]),
+        ("t.", "TXT", "IN", 0xFFFFFFFF, [1, 65, 0]),
+    ]
+
+
+def op_insert_raw(sec, i):
+    owner, ty, cls, ttl, rdata = raw_menu()[i]
+    labels = [x for x in owner.split(".") if x]
+    return {"op": "insert", "sec": sec, "text": "",
+            "raw": {"name": L(owner), "type": ty, "class": cls, "ttl": list(ttl.to_bytes(4, "big")), "rdata": rdata},
+            "rec": {"bad": False, "r": struct_rec(labels, TYPES[ty], ttl, fixed=rdata, cls=CLASSES[cls])}}
+
+
 NAME_ARGS = [
     name("a"), name("xYz", "fr"), [0], name("ac", "d"), name("q" * 40, "q" * 40, "q" * 40), name("q", "ex"),
     [1, 46, 0], [64] + [97] * 64 + [0], [1, 97], [1, 97, 0, 9, 9], [1, 92, 0], [2, 97, 7, 0], name("w" * 63, "x" * 63, "y" * 63, "z" * 61),
@@ -137,6 +164,8 @@ def simple_ops():
     for sec in ("AN", "NS", "AR"):
         for i in range(len(record_menu())):
             ops.append(op_insert(sec, i))
+        for i in range(len(raw_menu())):
+            ops.append(op_insert_raw(sec, i))
     for nm in ("nq.x", "a", "q.ex"):
         ops.append({"op": "insert_q", "name": L(nm), "labels": [L(x) for x in nm.split(".")]})
     for t in RENAME_NAMES[:6]:
